@@ -61,6 +61,11 @@ declare -A DEMO=(
  [C17c_negation_lost_before_alias]="-p yash-syntax --test c17c_negated_alias"
  [C18c_line_chunk_splits_utf8]="-p yash-semantics --test c18c_long_line_chunking"
  [C19c_append_after_truncate]="-p yash-builtin --test c19c_append_after_truncate"
+ [C01c_nested_quote_resets_will_split]="-p yash-semantics --test c01c_nested_quote_asterisk"
+ [C02c_loop_status_after_continue]="-p yash-builtin --test c02c_loop_status_after_continue"
+ [C03c_shift_additive_precedence]="-p yash-arith --test c03c_shift_additive_precedence"
+ [C04c_case_broken_alternative]="-p yash-semantics --test c04c_case_broken_pattern"
+ [C09c_dot_script_fd_not_cloexec]="-p yash-builtin --test c09c_dot_script_fd_cloexec"
 )
 suite() { # runs the pinned suite in $WT, prints number of baseline tests missing
   (cd $WT && cargo nextest run --workspace --no-fail-fast --tool-config-file pb:/w/lib/nextest.toml --profile pb --test-threads 8 --offline >/dev/null 2>&1
